@@ -128,7 +128,13 @@ def hetero_vector(rng, n, edges):
             externals[str(i)] = [rng.randrange(n) for _ in range(rng.randint(1, 2))]
     # an alias may carry a default value: `TYPE A : B := v; END_TYPE`
     alias_default = [i for i in range(n) if vec[i] == "alias" and rng.random() < 0.4]
-    return {"kinds": vec, "dangling": dangling, "styles": styles, "externals": externals, "alias_default": alias_default}
+    # a declaration may hold several references to the same other declaration (two pumps of one type)
+    mult = {}
+    for a, b in edges:
+        if vec[a] in ("fb", "struct") and rng.random() < 0.25:
+            mult["%d-%d" % (a, b)] = rng.randint(2, 3)
+    return {"kinds": vec, "dangling": dangling, "styles": styles, "externals": externals, "alias_default": alias_default,
+            "mult": mult}
 
 
 def realise_hetero(n, edges, order, vec):
@@ -138,7 +144,7 @@ def realise_hetero(n, edges, order, vec):
     for i in order:
         k = vec["kinds"][i]
         refs = []
-        for j, b in enumerate(succ[i]):
+        for j, b in enumerate([b_ for b_ in succ[i] for _ in range(vec.get("mult", {}).get("%d-%d" % (i, b_), 1))]):
             st = styles.get("%d-%d" % (i, b), "plain")
             if st == "init":
                 refs.append("r%d_%d : N%d := (x := 1);" % (i, j, b))
@@ -246,11 +252,21 @@ def judge(res, probe, kind, n, edges, order, bad_kinds, recase_rng=None, vec=Non
         # identifiers are case-insensitive: a reference spelled in another letter case is the same edge
         import vgen
         text = vgen.recase_identifiers(text, recase_rng, 0.5)
-    obs = probe.run({"op": "analyze", "files": [["c07.st", text]]})
+    files = [["c07.st", text]]
+    if recase_rng is not None and renamed is None and "\n" in text and recase_rng.random() < 0.6:
+        # the declarations spread over two or three files: a cycle may cross file boundaries
+        lines = text.split("\n")
+        k_ = recase_rng.randint(2, 3)
+        buckets = [[] for _ in range(k_)]
+        for ln in lines:
+            buckets[recase_rng.randrange(k_)].append(ln)
+        files = [["c07_%d.st" % j_, "\n".join(b_) + "\n"] for j_, b_ in enumerate(buckets) if b_]
+        res.count("spread-over-files")
+    obs = probe.run({"op": "analyze", "files": files})
     res.evaluations += 1
     res.count("kind:" + kind)
     case = {"kind": kind, "n": n, "edges": edges, "order": order, "text": text, "recased": recase_rng is not None,
-            "renamed": renamed}
+            "renamed": renamed, "files": files if len(files) > 1 else None}
     if vec is not None:
         case["node_kinds"] = vec
         res.seen("hetero_kind_sets", "+".join(sorted(set(vec["kinds"]))) + ("+dangling" if vec["dangling"] is not None else ""))
@@ -260,6 +276,8 @@ def judge(res, probe, kind, n, edges, order, bad_kinds, recase_rng=None, vec=Non
             res.seen("reference_spellings", "var-external (no edge)")
         if vec.get("alias_default"):
             res.seen("reference_spellings", "alias-with-default")
+        if vec.get("mult"):
+            res.seen("reference_spellings", "repeated-reference")
     if obs.get("watchdog"):
         res.inconclusive.append({"why": "watchdog", "case": case})
         return
@@ -424,6 +442,12 @@ def replay_graph(case):
     c = case["case"]
     res = core.Result()
     probe = core.Probe()
+    if c.get("files"):
+        obs = probe.run({"op": "analyze", "files": c["files"]})
+        probe.close()
+        flagged = any(d["code"] in REC for d in obs.get("diags", []))
+        cyc = has_cycle(c["n"], [tuple(e) for e in c["edges"]])
+        return flagged == cyc, "cyclic=%s flagged=%s codes=%s" % (cyc, flagged, [d["code"] for d in obs.get("diags", [])])
     judge(res, probe, c["kind"], c["n"], [tuple(e) for e in c["edges"]], c["order"], (), text=c.get("text"))
     probe.close()
     if res.violations:
